@@ -739,7 +739,9 @@ def check_memo(ctx):
     for q, want in (('_touch', 1), ('_touchall', 3)):
         for fi in ctx.repo.funcs('fst_core', q):
             cfg = CFG(fi.node)
-            clears = [nd for nd in cfg.nodes if any(isinstance(x, ast.Call) and call_name(x) == 'clear' and norm(x.func.value).endswith('._cache')
+            clears = [nd for nd in cfg.nodes if any(isinstance(x, ast.Call) and isinstance(x.func, ast.Attribute) and
+                                                    ((call_name(x) == 'clear' and norm(x.func.value).endswith('._cache')) or
+                                                     (call_name(x) == '_touch' and q != '_touch'))
                                                     for x in subnodes(cfg, nd))]
             ctx.check('R2.3d', len(clears) >= want, fi.module, fi.qualname, 'clear-sites', f'{q} must clear the memo of every node it covers', fi.lineno,
                       sample={'function': fi.key, 'clears': len(clears)})
@@ -908,10 +910,12 @@ def check_offset_walk(ctx):
     ctx.rule('R2.5', 'in _offset the per-node memo clear dominates both "ends before the offset point" exits; zero delta => _touchall()', 3)
     for fi in ctx.repo.funcs('fst_core', '_offset'):
         cfg = CFG(fi.node)
-        clears = {nd.id for nd in cfg.nodes if any(isinstance(x, ast.Call) and call_name(x) == 'clear' and norm(x.func.value).endswith('._cache')
+        clears = {nd.id for nd in cfg.nodes if any(isinstance(x, ast.Call) and isinstance(x.func, ast.Attribute) and
+                                                   ((call_name(x) == 'clear' and norm(x.func.value).endswith('._cache')) or
+                                                    (call_name(x) == '_touch' and norm(x.func.value) != 'self'))
                                                    for x in subnodes(cfg, nd))}
         if not clears:
-            raise AnalysisError('_offset: per-node `._cache.clear()` not found')
+            raise AnalysisError('_offset: per-node memo flush (`<node>._cache.clear()` / `<node>._touch()`) not found')
         # the loop head that binds the walk variable: `if not (a := stack.pop())`
         heads = [nd for nd in cfg.nodes if any(isinstance(x, ast.NamedExpr) and isinstance(x.value, ast.Call) and call_name(x.value) == 'pop'
                                                for x in subnodes(cfg, nd))]
